@@ -17,6 +17,7 @@ DISP = {
     "div0": "read: divisor is a non-zero constant",
     "div-overflow": "read: divisor is a positive constant",
     "slice-op": "read: range built from positions already compared with the length",
+    "int-arith": "read: multiplication/shift on a value bounded by a constant or by the buffer size",
     "refcell": "read: no re-entrant borrow on the path",
     "char-conv": "read: argument range-checked by the digit-class test",
 }
